@@ -135,6 +135,9 @@ class SRTWriter(BaseWriter):
 
             # Eliminate excessive line breaks
             new_content = new_content.strip()
+            # A blank line would end the cue: never leave one inside the text
+            while '\n\n' in new_content:
+                new_content = new_content.replace('\n\n', '\n')
 
             srt += f"{new_content}\n\n"
             count += 1
